@@ -513,6 +513,7 @@ def run(shard, rec, rng):
     middleware_release_order(L, rec)
     handed_over_iterators_and_single_local_managers(L, rec)
     with_blocks_and_contextvar_proxies(L, rec)
+    bound_objects_without_the_attribute_and_falsy_values(L, rec)
     inplace_ops_on_threads_and_manager_inputs(L, rec, rng)
     # (b) threads
     TOPS = [o for o in OPS if o != "spawn"]
@@ -893,6 +894,88 @@ def with_blocks_and_contextvar_proxies(L, rec):
         if rb != want or ru != ("unbound", "nothing bound"):
             rec.violation("C18/PROXY-bound-object-reported-unbound" if rb[0] == "unbound" else "C18/PROXY-contextvar-resolution", f"LocalProxy(ContextVar, {attr!r}): where an object is bound -> {rb!r} (expected {want!r}); where nothing is bound -> {ru!r}",
                           {"scenario": "contextvar-proxy", "attribute": attr}, monitor="proxy")
+
+
+def bound_objects_without_the_attribute_and_falsy_values(L, rec):
+    """A named proxy in a context whose bound object lacks that attribute is not "unbound": the operations that have an
+    answer for an unbound proxy (bool, repr, __class__, dir) must not give that answer where an object is bound.  A name a
+    context binds to None / 0 / "" / [] is bound there: it reads back, through the namespace and through a proxy, while the
+    parent keeps its own value."""
+
+    class Bare:
+        pass
+
+    stk = L.LocalStack()
+    cv = contextvars.ContextVar("c18-bare")
+    for kind, p, bind in (("LocalStack", stk("user"), lambda: stk.push(Bare())), ("ContextVar", L.LocalProxy(cv, "user"), lambda: cv.set(Bare())),
+                          ("LocalStack-proxy-made-first", L.LocalProxy(stk, "user"), lambda: stk.push(Bare()))):
+        def probe():
+            bind()
+            out = {}
+            for nm, fn in (("bool", lambda: bool(p)), ("repr", lambda: repr(p)), ("__class__", lambda: p.__class__), ("dir", lambda: dir(p)), ("isinstance", lambda: isinstance(p, L.LocalProxy) and p.__class__ is L.LocalProxy)):
+                try:
+                    out[nm] = ("value", fn())
+                except AttributeError:
+                    out[nm] = ("AttributeError",)
+                except RuntimeError as e:
+                    out[nm] = ("RuntimeError", str(e)[:40])
+            return out
+
+        out = contextvars.Context().run(probe)
+        rec.case()
+        rec.nontrivial(("bound-object-without-the-attribute", kind))
+        rec.observe("named_proxies_on_objects_without_the_attribute")
+        unbound_answers = {"bool": ("value", False), "repr": ("value", "<LocalProxy unbound>"), "__class__": ("value", L.LocalProxy), "dir": ("value", []), "isinstance": ("value", True)}
+        bad = {k: v for k, v in out.items() if v == unbound_answers[k] or v[0] == "RuntimeError"}
+        if bad:
+            rec.violation("C18/PROXY-bound-object-reported-unbound", f"named proxy on a {kind} in a context where an object (without that attribute) is bound answers as if nothing were bound: {bad!r}",
+                          {"scenario": "bound-object-without-the-attribute", "kind": kind}, monitor="proxy")
+    for val in (None, 0, "", [], False, 0.0):
+        ns = L.Local()
+        px = ns("user")
+        ns.user = "parent"
+
+        def child():
+            ns.user = val
+            got = []
+            try:
+                got.append(("getattr", ns.user))
+            except AttributeError:
+                got.append(("getattr", "AttributeError"))
+            got.append(("hasattr", hasattr(ns, "user")))
+            try:
+                got.append(("proxy", px._get_current_object()))
+            except RuntimeError:
+                got.append(("proxy", "RuntimeError"))
+            got.append(("iter", dict(ns)))
+            return got
+
+        results = {"copy_context": contextvars.copy_context().run(child)}
+        box = {}
+        ctx_t = contextvars.copy_context()
+        th = threading.Thread(target=lambda: box.update(r=ctx_t.run(child)))
+        th.start()
+        th.join()
+        results["thread"] = box.get("r")
+
+        async def amain():
+            return await asyncio.create_task(_achild())
+
+        async def _achild():
+            return child()
+
+        results["asyncio-task"] = contextvars.copy_context().run(lambda: asyncio.run(amain()))
+        want = [("getattr", val), ("hasattr", True), ("proxy", val), ("iter", {"user": val})]
+        rec.case()
+        rec.nontrivial(("falsy-binding", repr(val)))
+        rec.observe("names_bound_to_falsy_values")
+        for how, got in results.items():
+            if got is None or [repr(g) for g in got] != [repr(w) for w in want]:
+                rec.violation("C18/LOCAL-name-bound-to-falsy-value-unreadable", f"a child context ({how}) binds ns.user = {val!r}: reads give {got!r}, expected {want!r}",
+                              {"scenario": "falsy-binding", "value": repr(val), "how": how}, monitor="local")
+                break
+        if getattr(ns, "user", "MISSING") != "parent":
+            rec.violation("C18/LOCAL-child-binding-reached-parent", f"after children bound ns.user = {val!r} the parent reads {getattr(ns, 'user', 'MISSING')!r}", {"scenario": "falsy-binding", "value": repr(val)}, monitor="local")
 
 
 def inplace_ops_on_threads_and_manager_inputs(L, rec, rng):
